@@ -165,6 +165,7 @@ InitState(cfg) ==
     fsys0    |-> [n \in AllFiles |-> FileState0(cfg, n)],
     stdin    |-> cfg.stdin,
     taint    |-> FALSE,      \* a child process was given the run's standard input
+    racy     |-> FALSE,      \* ... a child that does not read it to the end: how much of it is left is not determined
     swritten |-> <<>>,       \* everything the program itself wrote to standard output, in order
     sbuf     |-> <<>>,       \* ... the part still in the writer's buffer
     sdel     |-> <<>>,       \* ... the part delivered to the underlying writer
@@ -339,7 +340,8 @@ System(st, act) ==
            pid == Len(s1.procs)
            s2  == ProcDone(s1, pid)
            rc  == IF act.name \in FileCmds THEN (IF s1.fsys["f1"].ex THEN 0 ELSE 1) ELSE Status(act.name)
-       IN Note([s2 EXCEPT !.taint = @ \/ st.stdin # <<>>, !.stdin = <<>>], "system", rc, <<>>, FALSE)
+       IN Note([s2 EXCEPT !.taint = @ \/ st.stdin # <<>>, !.stdin = <<>>,
+                          !.racy = @ \/ (st.stdin # <<>> /\ act.name \notin EchoCmds)], "system", rc, <<>>, FALSE)
 
 \* ------------------------------------------------------------------ getline
 ReadIn(st, n, judged) ==
@@ -369,7 +371,8 @@ GetlineCmd(st, act) ==
   ELSE LET s1  == StartProc(Deliver(st), c, "in")
            pid == Len(s1.procs)
        IN ReadIn([s1 EXCEPT !.ins[c] = [open |-> TRUE, kind |-> "cmd", lines |-> IF c \in EchoCmds THEN st.stdin ELSE <<>>, pid |-> pid, judged |-> FALSE],
-                            !.taint = @ \/ st.stdin # <<>>, !.stdin = <<>>], c, FALSE)
+                            !.taint = @ \/ st.stdin # <<>>, !.stdin = <<>>,
+                            !.racy = @ \/ (st.stdin # <<>> /\ c \notin EchoCmds)], c, FALSE)
 
 \* ------------------------------------------------------------------ operand
 RECURSIVE NoteRecs(_, _, _)
@@ -423,6 +426,8 @@ Apply(st, act) ==
 \*    are read after BEGIN);
 \*  - another print to a command that does not read after a flush of that stream has lost bytes;
 \*  - print | "" and print | "  " unless NoExec refuses them (the shell exits at once: a race with the writer);
+\*  - the standard input as main input after a child that does not read its input to the end was given it (the
+\*    number of records left is a race between that child's exit and the copying of the input to it);
 \*  - two spellings of one file in one run (two streams on one file);
 \*  - payloads other than "plain" in CSV / TSV output mode (quoting rules of their own), or with two arguments.
 Enabled(st, act) ==
@@ -433,6 +438,7 @@ Enabled(st, act) ==
   /\ (act.op = "print" /\ ShapeOf(act) # "plain") => (st.omode = "default" /\ act.form # "print2")
   /\ act.op = "operand" => (IF act.name \in {"-"} \cup SkipOperands \cup Dirs THEN TRUE ELSE ~st.outs[act.name].open)
   /\ FileOf(act) # "" => st.spell[FileOf(act)] \in {"none", Spelling(ClsOf(act))}
+  /\ (st.racy /\ act.op = "operand") => act.name \notin {"-"} \cup SkipOperands
   /\ st.skipped => act.op \in {"operand", "finish"}
   /\ st.mainDone => act.op = "finish"
 
